@@ -34,11 +34,33 @@ pub type Bytes = u64;
 pub type Inner = BTreeMap<Keys, Option<Bytes>>;
 pub type Outer = BTreeMap<Name, Inner>;
 pub type Update = (Name, Keys, Option<Bytes>);
-pub enum StorageError { Bug, Other }
+pub enum StorageError { Bug, Other, PerspectiveHeadMismatch }
 pub struct Checkpoint { pub index: usize }
 pub enum FactPerspectivePrior { None, Some }
 pub struct LinearFactPerspective { pub map: Outer, pub prior: FactPerspectivePrior }
-pub struct CommandData { pub updates: Vec<Update> }
+#[derive(Copy, Clone, PartialEq, Eq, Structural)]
+pub struct CmdId { pub id: u64 }
+#[derive(Copy, Clone)]
+pub struct Priority { pub p: u64 }
+#[derive(Copy, Clone, PartialEq, Eq, Structural)]
+pub struct PriorAddress { pub p: u64 }
+pub struct PolicyBytes { pub _p: () }
+pub struct DataBytes { pub _p: () }
+pub struct CommandData { pub id: CmdId, pub priority: Priority, pub policy: Option<PolicyBytes>, pub data: DataBytes, pub updates: Vec<Update> }
+/// the command being added (abstract)
+pub struct Command { pub _p: () }
+impl Command {
+    #[verifier::external_body] pub fn id(&self) -> CmdId { unimplemented!() }
+    #[verifier::external_body] pub fn priority(&self) -> Priority { unimplemented!() }
+    #[verifier::external_body] pub fn parent(&self) -> PriorAddress { unimplemented!() }
+    #[verifier::external_body] pub fn policy(&self) -> Option<&[u8]> { unimplemented!() }
+    #[verifier::external_body] pub fn bytes(&self) -> &[u8] { unimplemented!() }
+}
+/// R30: `core::mem::take(&mut v)` on a Vec: hands out the contents, leaves `Vec::default()` = empty
+#[verifier::external_body]
+fn take_updates(v: &mut Vec<Update>) -> (r: Vec<Update>) ensures r@ == old(v)@, final(v)@.len() == 0 { core::mem::take(v) }
+#[verifier::external_body] fn policy_bytes(p: Option<&[u8]>) -> Option<PolicyBytes> { unimplemented!() }
+#[verifier::external_body] fn data_bytes(b: &[u8]) -> DataBytes { unimplemented!() }
 pub struct LinearPerspective { pub facts: LinearFactPerspective, pub commands: Vec<CommandData>, pub current_updates: Vec<Update> }
 
 /// facts visible through the prior (fact index / outer perspective): an arbitrary fixed function
@@ -108,6 +130,8 @@ impl LinearFactPerspective {
     }
 }
 impl LinearPerspective {
+    #[verifier::external_body]
+    pub fn head_address(&self) -> (r: Result<PriorAddress, StorageError>) { unimplemented!() }
     /// the fact overlay is exactly: the updates of every command, then the pending updates, applied in order
     pub open spec fn inv(&self) -> bool {
         forall|n: Name, k: Keys| #[trigger] self.facts.at(n, k)
@@ -272,10 +296,40 @@ P_REVERT = FnSpec(FILE, 'revert', I_P_RV,
         }'''),
     ])
 
+I_P_P = r'impl<R: Read> Perspective for LinearPerspective<R>'
+P_ADD = FnSpec(FILE, 'add_command', I_P_P,
+    sig_rewrites=[('command: &impl Command', 'command: &Command', 1, 'R6')],
+    contract="""
+        requires old(self).inv(),
+        ensures
+            // the pending writes of the accepted command become that command's updates: the overlay does not change,
+            // and it is still exactly the replay of the commands
+            r is Ok ==> final(self).inv() && final(self).commands@.len() == old(self).commands@.len() + 1
+                && final(self).commands@.subrange(0, old(self).commands@.len() as int) == old(self).commands@
+                && final(self).commands@.last().updates@ == old(self).current_updates@
+                && final(self).current_updates@.len() == 0 && final(self).facts == old(self).facts
+                && r->Ok_0 == final(self).commands@.len(),
+            r is Err ==> final(self).commands@ == old(self).commands@ && final(self).current_updates@ == old(self).current_updates@ && final(self).facts == old(self).facts,
+""",
+    rewrites=[
+        ('command.policy().map(Bytes::from)', 'policy_bytes(command.policy())', 1, 'R16'),
+        ('command.bytes().into()', 'data_bytes(command.bytes())', 1, 'R16'),
+        ('core::mem::take(&mut self.current_updates)', 'take_updates(&mut self.current_updates)', 1, 'R30 (mem::take on a Vec)'),
+    ],
+    inserts=[
+        ('before', 'Ok(self.commands.len())', """proof {
+            let cs0 = old(self).commands@;
+            let cs1 = self.commands@;
+            assert(cs1.drop_last() =~= cs0);
+            assert(cs1.subrange(0, cs0.len() as int) =~= cs0);
+            assert(self.current_updates@ =~= Seq::<Update>::empty());
+        }"""),
+    ])
+
 
 def build():
     return build_unit(PRELUDE, [
         ('impl FactPerspectivePrior', [IS_NONE]),
         ('impl LinearFactPerspective', [FP_CLEAR, FP_APPLY, FP_INSERT, FP_DELETE, FP_QUERY]),
-        ('impl LinearPerspective', [P_INSERT, P_DELETE, P_CHECKPOINT, P_REVERT]),
+        ('impl LinearPerspective', [P_INSERT, P_DELETE, P_CHECKPOINT, P_REVERT, P_ADD]),
     ])
